@@ -17,6 +17,7 @@ package main
 //   C03-KEEP   leaving a scope does not modify the scope object.
 
 import (
+	"go/ast"
 	"go/token"
 	"go/types"
 	"strings"
@@ -31,6 +32,147 @@ func checkC03(c *Ctx) {
 	c03Fresh(c)
 	c03Bind(c)
 	c03Cur(c)
+	c03Let(c)
+}
+
+// c03Let: `let` binds in parallel (every right-hand side is evaluated before
+// any name of the vector is bound, so a right-hand side sees the enclosing
+// binding of a name the same vector rebinds); `letseq` binds one by one.
+func c03Let(c *Ctx) {
+	const R = "C03-LET"
+	es := c.runES()
+	type shape struct {
+		parallel, sequential bool
+		t                    *esTemplate
+	}
+	classify := func(t *esTemplate) shape {
+		sh := shape{t: t}
+		sawGenRep := false
+		for _, a := range t.seq {
+			if a.kind != "Rep" || len(a.alts) != 1 {
+				continue
+			}
+			hasSeg, hasBind := false, false
+			for _, x := range a.alts[0] {
+				if x.kind == "Seg" {
+					hasSeg = true
+				}
+				if x.kind == "PopStackPutEnvInstr" {
+					hasBind = true
+				}
+			}
+			switch {
+			case hasSeg && hasBind:
+				sh.sequential = true
+			case hasSeg:
+				sawGenRep = true
+			case hasBind && sawGenRep:
+				sh.parallel = true
+			}
+		}
+		return sh
+	}
+	var letShapes, seqShapes, unknown []shape
+	for _, t := range es.templates {
+		if t.fn != "Generator.GenerateLet" || t.what != "return" {
+			continue
+		}
+		sh := classify(t)
+		if !sh.parallel && !sh.sequential {
+			continue // no bindings on this path
+		}
+		isLet, isSeq := false, false
+		if t.state != nil {
+			for k, v := range t.state.decided {
+				if !v {
+					continue
+				}
+				if strings.HasSuffix(k, `=="let"`) {
+					isLet = true
+				}
+				if strings.HasSuffix(k, `=="letseq"`) {
+					isSeq = true
+				}
+			}
+		}
+		switch {
+		case isLet:
+			letShapes = append(letShapes, sh)
+		case isSeq:
+			seqShapes = append(seqShapes, sh)
+		default:
+			unknown = append(unknown, sh)
+		}
+	}
+	fd := c.funcDecl("Generator.GenerateLet")
+	pos := token.NoPos
+	if fd != nil {
+		pos = fd.Pos()
+	}
+	if len(letShapes) == 0 {
+		// the generator does not distinguish let: every binding path applies to it
+		par := false
+		for _, sh := range unknown {
+			if sh.parallel && !sh.sequential {
+				par = true
+			}
+		}
+		if len(unknown) == 0 && len(seqShapes) == 0 {
+			c.undecided(R, "Generator.GenerateLet", "let binds in parallel", pos, "no emission sequence with bindings derived for GenerateLet")
+			return
+		}
+		c.check(par && len(seqShapes) > 0, R, "Generator.GenerateLet", "let binds in parallel", pos,
+			"let has its own emission sequence: all right-hand sides, then all bindings",
+			"no emission sequence of GenerateLet is selected for `let` and evaluates every right-hand side before binding any name: let binds one by one like letseq, so in (let [a 2 b a] ...) the second a is the new one instead of the enclosing one")
+		return
+	}
+	for _, sh := range letShapes {
+		c.check(sh.parallel && !sh.sequential, R, "Generator.GenerateLet", "let binds in parallel", sh.t.seq[0].pos,
+			"for let: every right-hand side is compiled, then every name is bound",
+			"the emission sequence selected for `let` binds a name before all right-hand sides are evaluated: "+seqString(sh.t.seq))
+	}
+	for _, sh := range seqShapes {
+		c.check(sh.sequential && !sh.parallel, R, "Generator.GenerateLet", "letseq binds one by one", sh.t.seq[0].pos,
+			"for letseq: each right-hand side is followed by its binding",
+			"the emission sequence selected for `letseq` does not bind each name right after its value: "+seqString(sh.t.seq))
+	}
+	// the parallel form pops in the reverse of the push order
+	if fd != nil {
+		okRev, found := false, false
+		ast.Inspect(fd.Body, func(n ast.Node) bool {
+			fs, ok := n.(*ast.ForStmt)
+			if !ok {
+				return true
+			}
+			emitsBind, callsGen := false, false
+			ast.Inspect(fs.Body, func(m ast.Node) bool {
+				if cl, ok := m.(*ast.CompositeLit); ok && exprShort(cl.Type) == "PopStackPutEnvInstr" {
+					emitsBind = true
+				}
+				if call, ok := m.(*ast.CallExpr); ok {
+					if sel, ok := call.Fun.(*ast.SelectorExpr); ok && sel.Sel.Name == "Generate" {
+						callsGen = true
+					}
+				}
+				return true
+			})
+			if !emitsBind || callsGen {
+				return true
+			}
+			found = true
+			if inc, ok := fs.Post.(*ast.IncDecStmt); ok && inc.Tok == token.DEC {
+				okRev = true
+			}
+			return true
+		})
+		if found {
+			c.check(okRev, R, "Generator.GenerateLet", "parallel bindings popped in reverse", pos,
+				"the values were pushed first to last, so the names are bound last to first", "the parallel form binds the names in push order: the values are popped last to first, so the names receive each other's values")
+		} else if len(letShapes) > 0 {
+			// a range loop over the names cannot run backwards: with values pushed first to last this binds them crosswise
+			c.bad(R, "Generator.GenerateLet", "parallel bindings popped in reverse", pos, "no counting-down loop binds the names of the parallel form: the values are popped last to first, so the names must be bound last to first")
+		}
+	}
 }
 
 // c03Cur: the function whose captured scopes the look-up consults is the one being executed.
